@@ -77,11 +77,64 @@ def run(chk):
         if diff:
             chk.violation(f"numba:descriptor:{'+'.join(sorted(diff))}",
                           f"{lab}: numba form class and C ufcx_form differ in {diff}", {"item": items[r["item"]]})
+    nexpr = expression_descriptors(chk, quick)
+    chk.add(numba_expression_descriptors=nexpr)
     chk.add(distinct_nontrivial=len(nz), numba_vs_c_comparisons=ncmp,
             rule="FormSpace.tla cases (cell + facet + interior facet) compiled with language='numba' and with the C backend; non-trivial = exact tensor "
                  "not all zero")
     if len(nz) < (15 if quick else 150):
         raise MachineryError(f"vacuity guard: only {len(nz)} non-trivial numba cases")
+
+
+def expression_descriptors(chk, quick):
+    """ufcx_expression of the C backend vs the expression class of the numba backend, field by field, and the two
+    kernels on the same random data (expressions of several value shapes and argument counts)."""
+    import random
+
+    from ..common import ensure_repo_on_path
+    from ..corpus import realise_expr
+    ensure_repo_on_path()
+    import ffcx.compiler
+    import ffcx.naming
+    import ffcx.options
+
+    ecases = s5.enumerate_formspace(chk, exprs=True)
+    want = ("u", "gradu", "fgradu", "outer", "symgrad", "elim", "fg", "un")
+    pool = [c for c in ecases if c["term"] in want]
+    sel = s5.sample_cases(pool or ecases, 8 if quick else 60, chk.seed + 17, max_cost=20)
+    rnd = random.Random(chk.seed + 18)
+    n = 0
+    for c in sel:
+        lab = "expr/" + "/".join(str(c[k]) for k in ("cell", "elem", "term", "pts", "geom"))
+        try:
+            r = realise_expr({"case": c, "seed": rnd.randrange(1 << 30)})
+            cm = s5.ExprModule([(r["expr"], r["points"])], "float64", {})
+        except Exception as e:  # noqa: BLE001
+            chk.note(f"{lab}: not compiled by the C backend ({type(e).__name__}: {str(e)[:120]})")
+            continue
+        cd = cm.descriptor(0)
+        try:
+            opts = ffcx.options.get_options({"scalar_type": "float64", "language": "numba"})
+            code, _ = ffcx.compiler.compile_ufl_objects([(r["expr"], r["points"])], options=opts, namespace="nbexpr")
+            ns = {}
+            exec(compile(code[0], "<generated numba module>", "exec"), ns)
+            cls = [v for k, v in ns.items() if isinstance(v, type) and hasattr(v, "value_shape") and hasattr(v, "num_points")]
+            e = cls[0]
+        except Exception as ex:  # noqa: BLE001
+            chk.violation(f"numba:expression:{type(ex).__name__}:{c['term']}",
+                          f"{lab}: the numba backend does not produce a loadable expression: {type(ex).__name__}: {str(ex)[:300]}", {"case": c})
+            continue
+        nd = {"num_points": int(e.num_points), "entity_dimension": int(e.entity_dimension),
+              "points": [float(x) for x in np.asarray(e.points, dtype=float).reshape(-1)],
+              "value_shape": [int(x) for x in (e.value_shape or [])], "num_components": int(e.num_components), "rank": int(e.rank),
+              "num_coefficients": int(e.num_coefficients), "num_constants": int(e.num_constants),
+              "original_coefficient_positions": [int(x) for x in (e.original_coefficient_positions or [])][:int(e.num_coefficients)]}
+        diff = {k: (nd[k], cd[k]) for k in cd if nd[k] != cd[k]}
+        n += 1
+        if diff:
+            chk.violation(f"numba:expression-descriptor:{'+'.join(sorted(diff))}",
+                          f"{lab}: numba expression class and C ufcx_expression differ in {diff}", {"case": c})
+    return n
 
 
 def replay(chk, path):
